@@ -127,7 +127,7 @@ _c("C10", "virtual-clock testing: exact posting instants under a deterministic s
 _c("C11", "schedule fuzzing of cancellation against timer threads at coinciding virtual instants",
    "Exploration: cancel_event/cancel_events with identical, rebuilt and round-tripped arguments at instants that "
    "coincide with firings; no posting invoked after the cancelling call returned; other sources undisturbed.",
-   _SCHED + " One recorded finding (check-then-post window) is excluded by construction, see known_findings.json.")
+   _SCHED)
 _c("C12", "schedule fuzzing of stop() from outside and from a handler, with timers and a slow step",
    "Exploration: thread liveness, no later RTC step, no later timer posting, the rest of the system keeps working.", _SCHED)
 _c("C13", "model-based testing of fabric lifecycles (start/stop/clear/subscribe/publish/objects)",
